@@ -781,16 +781,22 @@ int __wrap(pthread_mutex_destroy)(pthread_mutex_t *mutex) {
 static int myth_handle_PTHREAD_MUTEX_INITIALIZER(pthread_mutex_t * pm) {
   myth_mutex_t * m = (myth_mutex_t *)pm;
   volatile int * magic_p = (volatile int *)&m->magic;
+  MYTH_VERIF_POINT(MYTH_VS_MAGIC_CAS);
   int magic = * magic_p;
   if (magic != myth_mutex_magic_no) {
+    MYTH_VERIF_POINT(MYTH_VS_MAGIC_CAS);
     if (magic != myth_mutex_magic_no_initializing
 	&& __sync_bool_compare_and_swap(magic_p, magic, myth_mutex_magic_no_initializing)) {
       myth_mutex_t mi = MYTH_MUTEX_INITIALIZER;
       mi.magic = myth_mutex_magic_no_initializing;
       *m = mi;
       myth_rwbarrier();
+      MYTH_VERIF_POINT(MYTH_VS_MAGIC_WR);
       *magic_p = myth_mutex_magic_no;
     } else {
+#if defined(MYTH_VERIF)
+      while (*magic_p == myth_mutex_magic_no_initializing) { MYTH_VERIF_SPIN(MYTH_VS_MAGIC_SPIN); }
+#endif
       while (*magic_p == myth_mutex_magic_no_initializing) { }
       myth_assert(*magic_p == myth_mutex_magic_no);
     }
